@@ -326,7 +326,8 @@ def noteRead (ls : LoaderSt) (ld' : Loader Copter) : LoaderSt :=
         | some (tid, _), some c => (tid, c) :: ls.readFrom
         | _, _ => ls.readFrom }
 
-def World.step (fuel : Nat) (w : World) : HOp → World × HRes
+/-- `repaired = false` runs the loader as it was before the repair D26 (cache kept across `open_bootloader_uri`) -/
+def World.step (repaired : Bool) (fuel : Nat) (w : World) : HOp → World × HRes
   | .new => ({ w with loaders := w.loaders ++ [⟨Loader.new, none, []⟩] }, .unit)
   | .openLink k c =>
     match w.loaders[k]?, w.copters[c]? with
@@ -338,7 +339,9 @@ def World.step (fuel : Nat) (w : World) : HOp → World × HRes
         match w1.loaders[k]?, w1.copters[c]? with
         | some ls, some cop =>
           let L0 : Link Copter := { st := { cop with lateQ := [] }, inbox := [], sent := [] }
-          let ls' : LoaderSt := { ls with ld := ls.ld.openLink L0, conn := some c }
+          let ls' : LoaderSt :=
+            if repaired then { ld := ls.ld.openLink L0, conn := some c, readFrom := [] }
+            else { ls with ld := ls.ld.openLinkKeep L0, conn := some c }
           ({ w1 with loaders := w1.loaders.set k ls' }, .unit)
         | _, _ => (w, .badOp)
     | _, _ => (w, .badOp)
@@ -378,11 +381,11 @@ def World.step (fuel : Nat) (w : World) : HOp → World × HRes
       ({ w with loaders := w.loaders.set k ls' }, .res r.2)
     | none => (w, .badOp)
 
-def World.run (fuel : Nat) : World → List HOp → World × List HRes
+def World.run (repaired : Bool) (fuel : Nat) : World → List HOp → World × List HRes
   | w, [] => (w, [])
   | w, op :: ops =>
-    let r := w.step fuel op
-    let rr := World.run fuel r.1 ops
+    let r := w.step repaired fuel op
+    let rr := World.run repaired fuel r.1 ops
     (rr.1, r.2 :: rr.2)
 
 end CfVerif.C12
